@@ -74,7 +74,8 @@ class C15(Check):
                 n_tasks=(1, 5 if big else 4), p_optional=0.25, p_zero=0.1, p_variable=0.3, p_release=0.15, p_due=0.15, n_workers=(0, 3), p_select=0.4,
                 p_cumulative=0.2, p_assign=0.7, p_dynamic=0.1, p_delayed=0.1, p_work=0.2, p_horizon=0.85, slack=(0, 5),
                 constraints=rng.sample(SAFE_CONSTRAINTS, 4), n_constraints=(0, 3), n_buffers=(0, 1) if rng.random() < 0.15 else (0, 0),
-                indicators=["FromMathExpression", "NumberTasksAssigned"] if with_obj else [], n_indicators=(1, 2),
+                indicators=["FromMathExpression", "FromMathExpression", "NumberTasksAssigned", "ResourceUtilization"] if with_obj else [], n_indicators=(1, 2),
+                p_indicator_bounds=0.6,
                 objectives=OBJECTIVES if with_obj else [], n_objectives=(1, 1) if rng.random() < 0.8 else (2, 2),
             )
         spec = gen.gen_spec(keyed_rng(run_seed, "spec"), prof)
